@@ -372,9 +372,9 @@ func (w *World) doRaw(spec ReqSpec) *ReqObs {
 
 func c13Cases(tier string) []ECase {
 	var ins []c13in
-	maxSeg := 2
+	maxSeg := 3
 	if tier == "thorough" {
-		maxSeg = 3
+		maxSeg = 4
 	}
 	var rests []string
 	var gen func(prefix string, n int)
@@ -399,9 +399,7 @@ func c13Cases(tier string) []ECase {
 	for mi := range c13Mounts {
 		for _, r := range rests {
 			for qi, q := range c13Queries {
-				if tier == "quick" && len(r) > 8 && qi%2 == 1 {
-					continue
-				}
+				_ = qi
 				k++
 				ins = append(ins, c13in{mount: mi, fwd: k%2 == 0, method: c13Methods[k%7], rest: r, query: q, hdr: k % 6, body: "none", resp: c13Responses[k%3]})
 			}
@@ -426,9 +424,6 @@ func c13Cases(tier string) []ECase {
 				for hi := range c13HeaderSets {
 					for _, fwd := range []bool{false, true} {
 						k++
-						if tier == "quick" && (k%3 != 0) && !(b == "none" && hi <= 1) {
-							continue
-						}
 						ins = append(ins, c13in{mount: k % 4, fwd: fwd, method: me, rest: small[k%3], query: c13Queries[k%8], hdr: hi, body: b, resp: rs})
 					}
 				}
@@ -448,7 +443,7 @@ func checkC13(t *testing.T, job *Job, res *Result) {
 	if job.Replay != nil {
 		tier = job.Replay.Tier
 	}
-	res.Rule = "requests built from raw bytes through Server.buildHandler -> router -> service -> target -> real http.Transport -> in-memory echo target; core = every path of <=2 (thorough <=3) segments over {a, a%2Fb, %41, a%20b, app, empty, ;p=1, a+b, %E2%82%AC} with and without trailing slash x 4 mounts (/, /app stripped, /app unstripped, /app/v2 beside /app) x 8 raw queries, other dimensions rotating; look-alike paths; methods x bodies (none, 1B, 70kB, 70kB chunked) x 10 responses (incl. 103 early hints, target's own 503) x 6 header sets x header forwarding on/off; oracle: wire request and client response compared byte for byte with what was sent"
-	res.Bounds = "segments<=2 quick / <=3 thorough"
+	res.Rule = "requests built from raw bytes through Server.buildHandler -> router -> service -> target -> real http.Transport -> in-memory echo target; core = every path of <=3 (thorough <=4) segments over {a, a%2Fb, %41, a%20b, app, empty, ;p=1, a+b, %E2%82%AC} with and without trailing slash x 4 mounts (/, /app stripped, /app unstripped, /app/v2 beside /app) x 8 raw queries, other dimensions rotating; look-alike paths; methods x bodies (none, 1B, 70kB, 70kB chunked) x 10 responses (incl. 103 early hints, target's own 503) x 6 header sets x header forwarding on/off; oracle: wire request and client response compared byte for byte with what was sent"
+	res.Bounds = "path segments<=3 quick / <=4 thorough; full product of the path x mount x query core"
 	runE(t, job, res, &ESpec{Prop: "C13", Setup: c13Setup, Cases: c13Cases(tier), Batch: 400})
 }
